@@ -77,6 +77,38 @@ fn norm_msg(m: &str) -> String {
     rule
 }
 
+/// The message of the checker rule a mutation class aims at (only classes for which the unchanged checker names that
+/// rule for every mutant, measured over several seeds, are listed).
+fn expected_rule(class: &str) -> Option<&'static [&'static str]> {
+    Some(match class {
+        "job-split-over-tours" | "job-split-over-tours|other-shift-of-same-vehicle" => &["job served in multiple tours"],
+        "assigned-and-unassigned" => &["job present as assigned and unassigned"],
+        "duplicated-job" => &["not all tasks served for"],
+        "unknown-job" => &["cannot find job with id"],
+        "limit-breach-tour-size" => &["tour size limit violation"],
+        "limit-breach-distance" => &["max distance limit violation"],
+        "limit-breach-duration" => &["shift time limit violation"],
+        "relation-order-broken" => &["does not follow strict rule"],
+        "relation-vehicle-broken|pinned-vehicle-has-tour" | "relation-vehicle-broken|pinned-vehicle-idle" => &["has jobs assigned to another tour"],
+        "arrival-mismatch" => &["arrival time mismatch for"],
+        "distance-mismatch" => &["distance mismatch for"],
+        "tour-statistic-mismatch" => &["distance mismatch for tour statistic", "duration mismatch for tour statistic"],
+        "overall-statistic-mismatch" => &["solution statistic mismatch"],
+        "load-above-capacity|regular-tour" => &["load exceeds capacity in tour"],
+        "load-misreported|regular-tour" => &["load mismatch", "load exceeds capacity in tour"],
+        "break-misplaced" => &["cannot find break for tour"],
+        // dropped-job: no single rule names it for every mutant (load / job count / arrival / task count), not listed
+        _ => return None,
+    })
+}
+
+const ALL_RULE_TEXTS: &[&str] = &[
+    "job served in multiple tours", "job present as assigned and unassigned", "not all tasks served for", "cannot find job with id", "tour size limit violation",
+    "max distance limit violation", "shift time limit violation", "does not follow strict rule", "has jobs assigned to another tour", "arrival time mismatch for",
+    "distance mismatch for", "distance mismatch for tour statistic", "duration mismatch for tour statistic", "solution statistic mismatch", "load exceeds capacity in tour",
+    "load mismatch", "cannot find break for tour",
+];
+
 struct Mutant {
     class: &'static str,
     site: String,
@@ -160,8 +192,12 @@ fn mutants(rng: &mut Rng, gp: &PragProblem, parsed: &PProblem, solution: &Value,
                 // job split over tours: one task of a multi-task job moved into another tour
                 let jid = a["jobId"].as_str().unwrap_or("");
                 let multi = parsed.job_index.get(jid).is_some_and(|j| parsed.jobs[*j].tasks.len() > 1);
-                if multi && tours.len() > 1 {
-                    let tj = (ti + 1) % tours.len();
+                // two kinds of target: a tour of another vehicle, and the tour of another shift of the SAME vehicle
+                let vid = tours[ti]["vehicleId"].as_str().unwrap_or("");
+                let other_vehicle = (1..tours.len()).map(|d| (ti + d) % tours.len()).find(|tj| tours[*tj]["vehicleId"].as_str() != Some(vid));
+                let other_shift = (1..tours.len()).map(|d| (ti + d) % tours.len()).find(|tj| tours[*tj]["vehicleId"].as_str() == Some(vid));
+                for (tj, class) in [(other_vehicle, "job-split-over-tours"), (other_shift, "job-split-over-tours|other-shift-of-same-vehicle")] {
+                    let Some(tj) = tj.filter(|_| multi) else { continue };
                     let mut s = solution.clone();
                     // remove here
                     if acts.len() == 1 {
@@ -175,7 +211,7 @@ fn mutants(rng: &mut Rng, gp: &PragProblem, parsed: &PProblem, solution: &Value,
                     let other = s["tours"][tj]["stops"].as_array_mut().unwrap();
                     let pos = other.len().saturating_sub(1).max(1);
                     other.insert(pos, new_stop);
-                    push("job-split-over-tours", site.clone(), None, s, &mut out);
+                    push(class, site.clone(), None, s, &mut out);
                 }
             }
             // misplaced break: the break activity keeps its place but its interval is moved 3 hours later
@@ -329,6 +365,7 @@ fn main() {
     }
     let cases: u64 = run.by_tier(400, 50_000);
     let cap = run.by_tier(3usize, 1000);
+    let silent: std::sync::Mutex<Vec<(&'static str, String, Value)>> = std::sync::Mutex::new(Vec::new());
     par_for(4, cases, &|| !run.has_time(), &|i| {
         let case_seed = mix(run.seed, i);
         let mut rng = Rng::new(case_seed);
@@ -466,7 +503,35 @@ fn main() {
             run.eval();
             run.nontrivial(&format!("{}|{}|{case_seed}", m.class, m.site));
             match run_checker(core2, problem, &gp.matrices, &m.solution) {
-                Verdict::Rejects(_) => run.observe("mutants_rejected", m.class),
+                Verdict::Rejects(errs) => {
+                    run.observe("mutants_rejected", m.class);
+                    if std::env::var("C12_MEASURE").is_ok() {
+                        let fams: std::collections::BTreeSet<String> = errs.iter().map(|e| norm_msg(e)).collect();
+                        for f in fams {
+                            run.observe("class_msgs", &format!("{} => {f}", m.class));
+                        }
+                    }
+                    // did the rule the mutation class aims at speak, or was the mutant only rejected for a side effect?
+                    // (whatever the class: remember which rule texts this checker build still uses at all)
+                    for text in ALL_RULE_TEXTS.iter().filter(|t| errs.iter().any(|e| e.contains(**t))) {
+                        run.observe("rule_texts_seen", text);
+                    }
+                    if let Some(expected) = expected_rule(m.class) {
+                        let spoke = errs.iter().any(|e| expected.iter().any(|x| e.contains(x)));
+                        run.observe(if spoke { "rule_spoke" } else { "rule_silent" }, m.class);
+                        if !spoke {
+                            // judged after the run: only a violation when the rule text is still in use elsewhere
+                            let mut pending = silent.lock().unwrap();
+                            if !pending.iter().any(|(c, ..): &(&'static str, String, Value)| *c == m.class) {
+                                pending.push((
+                                    m.class,
+                                    format!("checker rejects the mutant ({} at {}) only for side effects: no error mentions {expected:?}: {}", m.class, m.site, clip(&errs.join("; "), 300)),
+                                    art(problem, &m.solution, json!({"class": m.class, "site": m.site, "errors": errs})),
+                                ));
+                            }
+                        }
+                    }
+                }
                 Verdict::NotLoadable(_) => run.observe("mutants_not_loadable", m.class),
                 Verdict::Accepts => {
                     run.observe("mutants_accepted", m.class);
@@ -482,8 +547,19 @@ fn main() {
             }
         }
     });
+    // a mutant class whose own rule stayed silent while the mutants were rejected for side effects (moved loads, arrival
+    // times): a breach of that kind without side effects would be accepted. Wording is not part of the property: when the
+    // rule text is not produced by ANY mutant of the run, the checker's messages were reworded and nothing can be inferred.
+    for (class, what, artefact) in silent.lock().unwrap().drain(..) {
+        let expected = expected_rule(class).unwrap_or(&[]);
+        if expected.iter().any(|t| run.observed("rule_texts_seen", t) > 0) {
+            run.violation(&format!("C12|rule-silent|{class}"), &what, artefact);
+        } else {
+            run.inconclusive(&format!("rule text of class {class} never produced in this run (checker messages reworded?): rule attribution not possible"));
+        }
+    }
     run.floor("valid solutions given to the checker", run.observed("valid_solutions", "accepted") + run.observed("valid_solutions", "rejected"), run.by_tier(30, 300));
-    for class in ["load-misreported|regular-tour", "load-above-capacity|regular-tour", "unknown-job", "duplicated-job", "dropped-job", "job-split-over-tours", "assigned-and-unassigned", "arrival-mismatch",
+    for class in ["load-misreported|regular-tour", "load-above-capacity|regular-tour", "unknown-job", "duplicated-job", "dropped-job", "job-split-over-tours", "job-split-over-tours|other-shift-of-same-vehicle", "assigned-and-unassigned", "arrival-mismatch",
         "distance-mismatch", "tour-statistic-mismatch", "overall-statistic-mismatch", "limit-breach-distance", "limit-breach-duration", "limit-breach-tour-size",
         "relation-order-broken", "relation-vehicle-broken|pinned-vehicle-has-tour", "break-misplaced"] {
         let judged = run.observed("mutants_rejected", class) + run.observed("mutants_accepted", class) + run.observed("mutants_panicked", class);
